@@ -213,7 +213,7 @@ def handle (st : St) (seq : String) (f : List String) : St × List String :=
           let (once', mon2) : Option Once × List String :=
             match st.once, pw with
             | some oc, some p =>
-              if o = "ok" && active cur && isAccruing kind then
+              if o = "ok" && active cur && isAccruing kind && !lostNow then
                 let steps := oc.steps ++ [(netOf cur, p, now)]
                 match steps with
                 | [_] => (some { oc with steps := steps }, [])
@@ -242,7 +242,8 @@ def handle (st : St) (seq : String) (f : List String) : St × List String :=
         | none => (st, [s!"BAD\t{seq}\tcannot parse state"])
         | some (real, pw, d) =>
           let oc : Option Once := match pw with
-            | some p => if o = "ok" && active cur && isAccruing kind && kind != "close" then
+            | some p => if o = "ok" && active cur && isAccruing kind && kind != "close" &&
+                  !(kind = "lsr" && !(sweepFine cur ⟨now, h⟩ pw)) then
                 some { n := netOf cur, pw := p, now := now, kind := kind, booked := booked real } else none
             | none => none
           -- the branch is discarded: model state and ghost stay
